@@ -20,7 +20,7 @@ RULE = ("universes of 3-14 path-backed entities in the local tree with random at
         "unknown keys, 'sid' included}; sid_encode in {str, uri, None-returning}; one case in four works in a non-default path configuration. GetFromPaths(c).get must yield one record per Sid of "
         "FindInPaths(c).find in the same order, carrying the encoded Sid and exactly that Sid's stored data / requested keys; GetFromAll must equal "
         "GetFromPaths as a multiset for forms whose type has a configured Getter and yield nothing for the others; get_one / get_data / get_attr "
-        "are the first record, the record of that Sid, one value. non-trivial = >= 2 records and at least one with stored data; "
+        "are the first record, the record of that Sid, one value (also for the not existing sibling-extension Sid sharing a sidecar); plain entities and other searches are also asked as Sid objects typed with any accepting template. non-trivial = >= 2 records and at least one with stored data; "
         "distinct = (universe, data, search, attributes, encoder)")
 ASSUMPTIONS = [
     "the empty attributes list is not generated (the code treats it as 'no filter', the statement does not say)",
